@@ -154,6 +154,7 @@ type fnGen struct {
 	timeoutMs       int
 	errGlobals      []string
 	wantRetry       func(string) bool
+	privateFV       map[*ssa.FreeVar]bool
 }
 
 type guardProv struct {
@@ -414,7 +415,7 @@ const (
 
 type addr struct {
 	kind addrKind
-	reg  *ssa.Alloc
+	reg  ssa.Value  // *ssa.Alloc, or a *ssa.FreeVar of a private captured local
 	path []pathStep // for akReg
 	ptr  string     // for akHeap: pointer term; for elems of scalar slices base/idx are set instead
 	typ  types.Type // pointee type
@@ -447,7 +448,7 @@ func deref(t types.Type) types.Type {
 
 func (g *fnGen) isReg(v ssa.Value) (*ssa.Alloc, bool) {
 	a, ok := v.(*ssa.Alloc)
-	if ok && !a.Heap {
+	if ok && regAlloc(a) {
 		return a, true
 	}
 	return nil, false
@@ -456,7 +457,11 @@ func (g *fnGen) isReg(v ssa.Value) (*ssa.Alloc, bool) {
 func (g *fnGen) resolveAddr(st *state, v ssa.Value) *addr {
 	switch x := v.(type) {
 	case *ssa.Alloc:
-		if !x.Heap {
+		if regAlloc(x) {
+			return &addr{kind: akReg, reg: x, typ: deref(x.Type())}
+		}
+	case *ssa.FreeVar:
+		if g.privateFV[x] {
 			return &addr{kind: akReg, reg: x, typ: deref(x.Type())}
 		}
 	case *ssa.FieldAddr:
@@ -514,7 +519,7 @@ func (g *fnGen) resolveAddr(st *state, v ssa.Value) *addr {
 	return nil
 }
 
-func (g *fnGen) regGet(st *state, a *ssa.Alloc) string {
+func (g *fnGen) regGet(st *state, a ssa.Value) string {
 	if t, ok := st.regs[a]; ok {
 		return t
 	}
@@ -719,7 +724,7 @@ func (g *fnGen) val(st *state, v ssa.Value) string {
 			return g.elemAddrTerm(sl.Elem(), S("s-base", xv), S("+", S("s-off", xv), g.val(st, x.Index)))
 		}
 	case *ssa.Alloc:
-		if !x.Heap {
+		if regAlloc(x) {
 			// address of a register used as a value: should not happen
 			g.abstracted["address of non-escaping local used as value: "+x.Comment] = true
 			return "0"
@@ -1129,7 +1134,19 @@ func (g *fnGen) generate() {
 		g.paramTypes[p.Name()] = p.Type()
 		g.typeFacts(st, sym, p.Type())
 	}
-	for _, fv := range fn.FreeVars {
+	g.privateFV = map[*ssa.FreeVar]bool{}
+	for i, fv := range fn.FreeVars {
+		if g.freeVarIsPrivate(i) {
+			// captured local that only this closure (deferred by the parent) can reach: a register
+			g.privateFV[fv] = true
+			pt := deref(fv.Type())
+			sym := q("fvcell!" + fv.Name())
+			g.declare(sym, g.R.sortOf(pt))
+			g.typeFacts(st, sym, pt)
+			st.regs[fv] = sym
+			g.vals[fv] = "0"
+			continue
+		}
 		sym := q("fv!" + fv.Name())
 		g.declare(sym, g.R.sortOf(fv.Type()))
 		g.vals[fv] = sym
@@ -1297,6 +1314,8 @@ func (g *fnGen) joinStates(sts []*state, tag string) *state {
 			srt = g.R.sortOf(deref(kk.Type()))
 		case *ssa.Range:
 			srt = "Int"
+		case *ssa.FreeVar:
+			srt = g.R.sortOf(deref(kk.Type()))
 		default:
 			srt = g.R.sortOf(k.Type())
 		}
@@ -1439,7 +1458,7 @@ func rootAlloc(v ssa.Value) (*ssa.Alloc, bool) {
 	for {
 		switch x := v.(type) {
 		case *ssa.Alloc:
-			return x, !x.Heap
+			return x, regAlloc(x)
 		case *ssa.FieldAddr:
 			v = x.X
 		case *ssa.IndexAddr:
@@ -1455,6 +1474,10 @@ func rootAlloc(v ssa.Value) (*ssa.Alloc, bool) {
 }
 
 func (g *fnGen) storeTargets(addrV ssa.Value, li *loopInfo) {
+	if fv, ok := addrV.(*ssa.FreeVar); ok && g.privateFV[fv] {
+		li.modRegs[fv] = true
+		return
+	}
 	if a, ok := rootAlloc(addrV); ok {
 		li.modRegs[a] = true
 		return
@@ -1513,7 +1536,7 @@ func (g *fnGen) instrEffects(ins ssa.Instruction, li *loopInfo) {
 		mt := x.Map.Type().Underlying().(*types.Map)
 		g.mapArrays(mt, func(n, srt string) { g.modArr(li, n, srt) })
 	case *ssa.Alloc:
-		if x.Heap {
+		if !regAlloc(x) {
 			li.modAlloc = true
 		}
 	case *ssa.MakeSlice, *ssa.MakeMap, *ssa.MakeChan, *ssa.MakeClosure, *ssa.MakeInterface:
@@ -1579,6 +1602,8 @@ func (g *fnGen) enterLoop(li *loopInfo, entry *state) *state {
 			st.regs[k] = g.freshConst("h!iter", "Int")
 			g.assume(st, S(">=", st.regs[k], "0"))
 			continue
+		case *ssa.FreeVar:
+			t = deref(kk.Type())
 		default:
 			t = k.Type()
 		}
@@ -1613,6 +1638,7 @@ func (g *fnGen) enterLoop(li *loopInfo, entry *state) *state {
 	for _, k := range gk {
 		if _, ok := st.ghost[k]; ok {
 			st.ghost[k] = g.freshConst("hg!"+k, g.R.sortOf(g.ghostTypes[k]))
+			g.typeFacts(st, st.ghost[k], g.ghostTypes[k])
 		}
 	}
 	if li.modAlloc || li.modAll {
@@ -1685,4 +1711,134 @@ func max64(a, b int64) int64 {
 		return a
 	}
 	return b
+}
+
+// regAlloc: a local that the engine keeps as a register. Besides the allocs the
+// compiler proved non-escaping, a local captured ONLY by closures that are
+// themselves only deferred (the named-results-plus-deferred-recover idiom) is
+// private to this activation: no callee can reach it, so calls do not havoc it.
+// The deferred closure's effect on it is applied when the defers run.
+var regAllocCache = map[*ssa.Alloc]bool{}
+
+func regAlloc(a *ssa.Alloc) bool {
+	if !a.Heap {
+		return true
+	}
+	if v, ok := regAllocCache[a]; ok {
+		return v
+	}
+	ok := privateToDeferredClosures(a)
+	regAllocCache[a] = ok
+	return ok
+}
+
+func privateToDeferredClosures(a *ssa.Alloc) bool {
+	refs := a.Referrers()
+	if refs == nil {
+		return false
+	}
+	captured := false
+	var check func(v ssa.Value, refs []ssa.Instruction) bool
+	check = func(v ssa.Value, refs []ssa.Instruction) bool {
+		for _, r := range refs {
+			switch x := r.(type) {
+			case *ssa.DebugRef:
+			case *ssa.UnOp:
+			case *ssa.Store:
+				if x.Val == v {
+					return false // the address itself is stored somewhere
+				}
+			case *ssa.FieldAddr:
+				if x.Referrers() != nil && !check(x, *x.Referrers()) {
+					return false
+				}
+			case *ssa.IndexAddr:
+				if x.Referrers() != nil && !check(x, *x.Referrers()) {
+					return false
+				}
+			case *ssa.MakeClosure:
+				captured = true
+				crefs := x.Referrers()
+				if crefs == nil {
+					return false
+				}
+				for _, cr := range *crefs {
+					switch d := cr.(type) {
+					case *ssa.Defer:
+						if d.Call.Value != x {
+							return false
+						}
+					case *ssa.DebugRef:
+					default:
+						return false
+					}
+				}
+			default:
+				return false
+			}
+		}
+		return true
+	}
+	return check(a, *refs) && captured
+}
+
+// freeVarIsPrivate: free variable i of this closure is bound, in the parent, to a
+// local that only deferred closures capture (see regAlloc).
+func (g *fnGen) freeVarIsPrivate(i int) bool {
+	parent := g.fn.Parent()
+	if parent == nil {
+		return false
+	}
+	for _, b := range parent.Blocks {
+		for _, ins := range b.Instrs {
+			mc, ok := ins.(*ssa.MakeClosure)
+			if !ok || mc.Fn != g.fn || i >= len(mc.Bindings) {
+				continue
+			}
+			al, ok := mc.Bindings[i].(*ssa.Alloc)
+			return ok && al.Heap && regAlloc(al)
+		}
+	}
+	return false
+}
+
+// recoverOnlyClosure: the closure's body is `if r := recover(); r != nil { ... }` and
+// nothing else, so on the path where nothing panicked it has no effect.
+func recoverOnlyClosure(fn *ssa.Function) bool {
+	if len(fn.Blocks) == 0 {
+		return false
+	}
+	entry := fn.Blocks[0]
+	sawRecover := false
+	for _, ins := range entry.Instrs {
+		switch x := ins.(type) {
+		case *ssa.Call:
+			if b, ok := x.Call.Value.(*ssa.Builtin); ok && (b.Name() == "recover" || b.Name() == "ssa:deferstack") {
+				if b.Name() == "recover" {
+					sawRecover = true
+				}
+				continue
+			}
+			return false
+		case *ssa.Store, *ssa.Alloc, *ssa.DebugRef, *ssa.UnOp, *ssa.BinOp, *ssa.If, *ssa.MakeInterface, *ssa.ChangeInterface:
+		default:
+			return false
+		}
+	}
+	if !sawRecover {
+		return false
+	}
+	if _, ok := entry.Instrs[len(entry.Instrs)-1].(*ssa.If); !ok {
+		return false
+	}
+	// the non-panicking successor must do nothing but return
+	els := entry.Succs[1]
+	for _, ins := range els.Instrs {
+		switch ins.(type) {
+		case *ssa.RunDefers, *ssa.Return, *ssa.DebugRef, *ssa.Jump:
+		default:
+			return false
+		}
+	}
+	return true
 }
